@@ -83,7 +83,7 @@ impl Property for C14Prop {
     }
     fn workloads(&self, tier: Tier) -> u64 {
         match tier {
-            Tier::Quick => 12_000,
+            Tier::Quick => 30_000,
             Tier::Thorough => 250_000,
         }
     }
